@@ -1,7 +1,23 @@
 (* Obligations for C12: non-vacuity examples and refutation witnesses for the
    theorems in Props/C12.v (all by computation on the executable model). *)
 From ACH Require Import Bytes Flatten FlattenFacts.
-From Coq Require Import Permutation Sorted Lia.
+From ACH Require Import LayoutTypes Layouts FlattenTable FlattenSrc.
+From Coq Require Import Permutation Sorted Lia String.
+
+(* reflection over the facts regenerated from file_flattener.go and over the
+   record layouts regenerated from batchHeader.go / iatBatchHeader.go *)
+Lemma flatten_src_ok : facts_ok flatten_src = true.
+Proof. vm_compute. reflexivity. Qed.
+
+Lemma header_layouts_ok : header_layout_ok L_BatchHeader = true /\ header_layout_ok L_IATBatchHeader = true.
+Proof. vm_compute. split; reflexivity. Qed.
+
+Lemma flatten_src_facts :
+  (forall w, ~ In (FUnknown w) flatten_src)
+  /\ (forall r u w, In (FSigWidth r u w) flatten_src -> u = "rune"%string /\ w = sig_width)
+  /\ (forall s k o, In (FSort s k o) flatten_src -> o = "<"%string)
+  /\ In (FFirstFit true) flatten_src /\ ~ In (FFirstFit false) flatten_src.
+Proof. apply facts_sound, flatten_src_ok. Qed.
 
 (* three batches, the first two with the same header signature and disjoint
    trace numbers, the third with another signature *)
@@ -92,5 +108,5 @@ Qed.
    entries are gone (unreachable from valid files: the SEC code is part of the
    signature and is IAT exactly for IAT batches) *)
 Lemma kind_mismatch_drops_entries :
-  length (ids (flatten_stable [mkBatch KStd [65]%N 1 [ex_e 50 1 false] []; mkBatch KIAT [65]%N 2 [ex_e 51 2 false] []])) = 1%nat.
+  List.length (ids (flatten_stable [mkBatch KStd [65]%N 1 [ex_e 50 1 false] []; mkBatch KIAT [65]%N 2 [ex_e 51 2 false] []])) = 1%nat.
 Proof. vm_compute. reflexivity. Qed.
